@@ -47,6 +47,8 @@ fn class_of(e: &BBIProcessError<BedValueError>) -> i128 {
                 70
             } else if m.starts_with("Invalid options") {
                 80
+            } else if m.starts_with("Input bedGraph is not grouped by chromosome") {
+                12
             } else {
                 classify(&m)
             }
